@@ -452,3 +452,98 @@ Inductive malformed : cmd -> Prop :=
 
 (* a read is malformed at the first resource name that is not in the table *)
 Definition unknown_read (r : req) : Prop := lookup (r_name r) doc_read_table = None.
+
+(* ================================================================== commands in progress at the same time *)
+(* The SDK serves every REST call on a goroutine of its own: several callers issue commands
+   against one Driver at once — different devices and the same device.  A caller ([lane]) issues
+   its commands one after the other; the steps of different callers interleave in any order
+   (the schedule).  What a command of the code under test is turned into is computed from that
+   command's OWN arguments into locals of the call ([Private]): no other command in progress is
+   looked at.  The wire records what the readers received, in arrival order, tagged with the
+   caller — the check attributes requests to commands by markers embedded in their parameters.
+
+   For contrast the machine has a second mode, [Shared]: the JSON document of an Object-typed
+   write (ReaderConfig / ROSpec / AccessSpec) goes through ONE scratch slot kept on the Driver
+   — written in one step, read back in a later step.  The statement below is FALSE of that mode
+   (shared_scratch_refuted): the class of change the concurrent scenarios of the check look for. *)
+Record job := mkJob { j_dev : N; j_cmd : cmd }.
+
+Inductive scratch_mode := Private | Shared.
+
+Inductive phase :=
+| Idle                                          (* between two commands *)
+| Encoded                                       (* Shared only: document written to the scratch slot, not yet read back *)
+| Sending (rest : list request) (fail : bool).  (* translated; these requests are still to go out *)
+
+Record lane := mkLane { l_todo : list job; l_phase : phase; l_results : list bool }.
+
+(* (caller, (device, request)) in arrival order *)
+Definition wire := list (nat * (N * request)).
+
+Record cstate := mkC { c_lanes : nat -> lane; c_scratch : option value; c_wire : wire }.
+
+Definition set_lane (ls : nat -> lane) (i : nat) (l : lane) : nat -> lane :=
+  fun k => if Nat.eqb k i then l else ls k.
+
+(* the document of an Object-typed write, and the command with another document in its place *)
+Definition obj_doc (c : cmd) : option value :=
+  match c with
+  | CWrite (r :: _) (p :: _) =>
+      let n := r_name r in
+      if ((n =? "ReaderConfig") || (n =? "ROSpec") || (n =? "AccessSpec"))%string
+      then Some (p_val p) else None
+  | _ => None
+  end.
+Definition with_doc (v : value) (c : cmd) : cmd :=
+  match c with
+  | CWrite rs (p :: ps) => CWrite rs (mkParam (p_name p) (p_type p) v :: ps)
+  | _ => c
+  end.
+
+Definition translated (b : bool) (c : cmd) : phase :=
+  let o := run b c in Sending (sent o) (failed o).
+
+(* one step of caller i *)
+Definition conc_step (m : scratch_mode) (b : bool) (i : nat) (st : cstate) : cstate :=
+  let l := c_lanes st i in
+  match l_todo l with
+  | [] => st
+  | j :: t =>
+      let upd ph := set_lane (c_lanes st) i (mkLane (j :: t) ph (l_results l)) in
+      match l_phase l with
+      | Idle =>
+          match m, obj_doc (j_cmd j) with
+          | Shared, Some v => mkC (upd Encoded) (Some v) (c_wire st)
+          | _, _ => mkC (upd (translated b (j_cmd j))) (c_scratch st) (c_wire st)
+          end
+      | Encoded =>
+          let c' := match c_scratch st with Some v => with_doc v (j_cmd j) | None => j_cmd j end in
+          mkC (upd (translated b c')) (c_scratch st) (c_wire st)
+      | Sending (q :: qs) f =>
+          mkC (upd (Sending qs f)) (c_scratch st) (c_wire st ++ [(i, (j_dev j, q))])
+      | Sending [] f =>
+          mkC (set_lane (c_lanes st) i (mkLane t Idle (l_results l ++ [f]))) (c_scratch st) (c_wire st)
+      end
+  end.
+
+Fixpoint conc_exec (m : scratch_mode) (b : bool) (sched : list nat) (st : cstate) : cstate :=
+  match sched with
+  | [] => st
+  | i :: s => conc_exec m b s (conc_step m b i st)
+  end.
+
+Definition conc_init (lanes : list (list job)) : cstate :=
+  mkC (fun i => mkLane (nth i lanes []) Idle []) None [].
+
+(* what caller i put on the wire *)
+Definition proj_wire (i : nat) (w : wire) : list (N * request) :=
+  map snd (filter (fun e => Nat.eqb (fst e) i) w).
+
+(* the same commands one at a time: each one's requests and verdict from [run] of that command alone *)
+Definition job_reqs (b : bool) (j : job) : list (N * request) := map (pair (j_dev j)) (sent (run b (j_cmd j))).
+Definition all_reqs (b : bool) (js : list job) : list (N * request) := flat_map (job_reqs b) js.
+Definition all_results (b : bool) (js : list job) : list bool := map (fun j => failed (run b (j_cmd j))) js.
+
+Definition lane_finished (l : lane) : bool := match l_todo l with [] => true | _ => false end.
+Definition conc_finished (n : nat) (st : cstate) : bool :=
+  forallb (fun i => lane_finished (c_lanes st i)) (seq 0 n).
